@@ -28,11 +28,11 @@ CLAIMS = {
  "C10": ("model_checking", "MC_faults: fault placement (each store operation of an exchange failing, singly and in pairs) is a choice of the model and enumerated exhaustively, combined with origin failures during validation / background revalidation; replay varies the failure kind and the logger; crashes and deadlocks of the real code are violations; Total / ErrorOnlyFromOrigin / OriginWinsOnStoreFault / LoggerIndependent monitors", "7 C10", "TLA+ model checking (TLC) with fault actions + fault replay + TLC trace validation"),
  "C12": ("model_checking", "meaning-level model: the specification's state holds directive meanings only; every sampled MC_decide behaviour is executed in the canonical spelling and 6 rewritten spellings and TLC compares the abstract observation sequences (SpellingInvariant), each run also satisfying all other monitors; numbers >= 2^31 are rendered with spellings up to 10^30", "7 C12", "TLA+ model checking (TLC) + spelling-group replay + TLC trace validation (canonical run of the code as oracle)"),
  "C16": ("model_checking", "MC_conc: TLC enumerates every interleaving of two concurrent exchanges (and the background revalidation) at the granularity of store operations and origin calls against the ownership and order-independent monitors; the interleavings are exported and replayed by gating the goroutines of the real transport at those operations, plus free-running concurrent rounds, all under the Go race detector (the sensor below operation granularity); TLC validates the recorded traces", "7 C16", "TLA+ model checking (TLC) of interleavings + gate-scheduled replay under the race detector + TLC trace validation"),
- "C19": ("model_checking", "MC_hist families vary and inval plus periodic histories repeated far beyond the bound; the Bounded monitor compares key count and index length with B = 4 * pairs * (vary sets + 1) + 8 once more than 3B requests were made; InvalidationCleans after unsafe requests", "7 C19", "TLA+ model checking (TLC) + behaviour replay + TLC trace validation"),
+ "C19": ("model_checking", "Footprint.tla: a model of the store alone (variant indexes with Date ranks, entries, freshness; no clock, no counters) whose state space is finite, so TLC explores every reachable store state under UNBOUNDED repetition of the request alphabet (GET with any selecting values / no-cache, origin answering 304 / full reply with any Vary set incl. '*' / not storable / failure, unsafe requests with same-origin Location, time passing) and checks Bounded, OneRefPerVariant and the action property InvalidationCleans; long behaviours of the same model (TLC simulation mode) are replayed into the real transport and the predicted index length and key count after every request are compared; plus MC_hist families vary and inval and periodic histories repeated far beyond the bound, judged by the Bounded / InvalidationCleans monitor (key count and index length <= B = 4 * pairs * (vary sets + 1) + 8 once more than 3B requests were made)", "7 C19", "TLA+ model checking (TLC) of Footprint.tla (complete state space) and MC_hist + replay of TLC simulation behaviours + TLC trace validation"),
  "C20": ("model_checking", "MC_swr: background latency 0 .. beyond the timeout or never, outcome 304 / full / error / 503, every timeout setting, caller cancellation before / after / never; replayed on the virtual clock; SwrTiming monitor (foreground elapsed 0 s, exactly one conditional background request, cancelled at the effective timeout, no goroutine left)", "7 C20", "TLA+ model checking (TLC) + behaviour replay + TLC trace validation"),
  "C14": ("model_checking", "MC_kv: TLC enumerates every sequence of Set / Get / Delete / Keys / Reopen up to the stated depth over keys that are prefixes of each other, with the outcome the reference map KVStore.tla prescribes; the harness renders the keys adversarially and replays on every backend (partly through the expapi handlers); TraceKV.tla applies every recorded operation to the reference map and judges its outcome; FsLayout.tla model-checks the file-name design (directory marker) at model scale", "7 C14", "TLA+ model checking (TLC) of KVStore / FsLayout + operation-sequence replay + TLC trace validation against the reference map"),
  "C15": ("model_checking", "FsAtomic.tla: exhaustive TLC run over all interleavings of the file-level steps of concurrent Set / Get / Delete on one key with write failure and process kill at every step, for the rename-based design (NoTornRead, LiveComplete); binding to the code by fault enumeration: a writer process cut by RLIMIT_FSIZE at every byte and killed at every hook step / random instants, judged by TLC against KVStore.tla", "7 C15", "TLA+ model checking (TLC) of FsAtomic + crash / cut-point enumeration on the real backend + TLC trace validation"),
- "C17": ("exploration", "tamper enumeration (bit flip / truncation at every position, extension, swapping files between keys), nonce freshness, plaintext search, wrong key, plain reopen and every way of enabling encryption with good and bad keys, judged by TLC against the encryption clauses of KVStore.tla (TraceKV.tla)", "7 C17", "tamper / configuration enumeration on the real backend + TLC trace validation against KVStore.tla"),
+ "C17": ("model_checking", "MC_enc: a code-shaped model of the encrypting backend at file level (store key id, cache key bound into the seal, nonce, damage; store opened with the right key / another key / without encryption; the transport on top) run against the reference of KVStore.tla: TLC enumerates every sequence of Set / Get / Delete / damage (flip, truncate, extend) / copy another key's file / reopen / transport store and read / damage all files up to the stated depth and every (key source x key length) way of switching encryption on, checks Judged, FreshNonces, NoPlaintext on the model and exports each sequence with the predicted outcomes; the harness replays them on the real encrypted backend with seeded positions, sizes and keys; plus tamper enumeration at every byte position, overlapping Sets under the race detector; TraceKV.tla judges every recorded operation (plaintext search in the files an operation wrote, ciphertext freshness, rejection of every altered / foreign / wrong-key file, transport miss instead of serving)", "7 C17", "TLA+ model checking (TLC) of MC_enc against KVStore + operation-sequence replay on the real backend + tamper enumeration + TLC trace validation"),
  "C18": ("model_checking", "OicNoNetwork monitor on every origin call and reply of exchanges carrying only-if-cached, over all store states of family V and the random histories", "7 C18", "TLA+ model checking (TLC) + behaviour replay + TLC trace validation"),
 }
 
